@@ -17,9 +17,10 @@ def jsamples(samples):
     return [[b(r) for r in s] for s in samples]
 
 
-def design_and_replay(run, tier, seed, want, tag, nreplay):
-    """MC_Ska design check; replay the histories selected by `want(beh)` through the CLI."""
-    cfg = "MC_Ska_quick" if tier == "quick" else "MC_Ska_thorough"
+def design_and_replay(run, tier, seed, want, tag, nreplay, focus=None):
+    """MC_Ska design check; replay the histories selected by `want(beh)` through the CLI.
+    `focus` selects the configuration that explores only histories containing that kind of operation."""
+    cfg = ("MC_Ska_quick" if tier == "quick" else "MC_Ska_thorough") + ("_" + focus if focus else "")
     d = vlib.design_check("MC_Ska", cfg, tag + "-ska", workers=8, timeout=3000, want_replay=True)
     run.add_design(d)
     rep = [r for r in d["replay"] if want(r)]
@@ -113,6 +114,22 @@ def merge_episodes(run, sb, rng, tier):
                 sb.merge([fnames[0], "odd"], "refused")
                 sb.merge(["odd", fnames[0]], "refused2")
                 run.evaluations += 1
+
+
+def merge_width_refusals(run, sb, rng):
+    """files whose k differs ACROSS the 64/128-bit boundary (31 vs 33, 29 vs 35), in both argument orders and as a
+    third input: refused, and no output file (the later inputs are loaded with the first file's integer type)"""
+    for (ka, kb) in ((31, 33), (33, 31), (29, 35)):
+        s1 = [gen.rand_seq(rng, 2 * 35 + 20)]
+        s2 = [s1[0][:60] + gen.rand_seq(rng, 40)]
+        sb.reset()
+        ea = sb.build("wa", [s1], ["wa"], ka, True)
+        eb = sb.build("wb", [s2], ["wb"], kb, True)
+        ec = sb.build("wc", [s2], ["wc"], ka, True)
+        if ea.get("ok") and eb.get("ok") and ec.get("ok"):
+            sb.merge(["wa", "wb"], "ref1")
+            sb.merge(["wa", "wc", "wb"], "ref2")
+            run.evaluations += 2
 
 
 # ---- C08 ------------------------------------------------------------------------------
